@@ -28,6 +28,8 @@ accessors instead of stored fields), an input family nobody had thought of (a ba
 ready, chunk bodies cut at every length, more frames than `acTL` declares, bytes after `IEND`) — never a weakness of a theorem: each of these changes alters
 behaviour the model fixes, so the model disagrees as soon as the harness asks the question.  The coverage measurement of section 5 would have pointed at
 three of the seven "missed by all" changes in advance (C11_5, C07_8's `fill_buf` error arm, C16_6's accessors).
+Wave 10 (ten properties, after the strengthening that wave 9 led to): 19 kept (1 duplicate dropped); 18 caught by the property's own check at first
+evaluation, 1 (C13_11, a sub-byte scatter mask, in C15's domain) only by the checks of other properties, none missed.
 
 | id | breaks | change | needs | caught by (quick tier) | what had to be strengthened |
 |---|---|---|---|---|---|
